@@ -27,7 +27,8 @@ theorem inv_job_rmJ_cons {cfg : Cfg} {s : St} {d : Disk} (h : Inv cfg s d) {j : 
   unfold RemovalsOK at hrm
   rw [hpc] at hrm
   simp only at hrm
-  obtain ⟨hrmj, hrmt⟩ := hrm
+  obtain ⟨hrmj, hrmt, hrmc⟩ := hrm
+  have hnotc : ¬ (j.kind = .compaction ∨ j.kind = .tr) := fun hk => by have := hrmc hk; cases this
   obtain ⟨hn1, hn2⟩ := hrmj n List.mem_cons_self
   let j' : Job := { j with pc := .rmJ rest }
   let d1 : Disk := { d with journals := d.journals.erase n }
@@ -50,9 +51,15 @@ theorem inv_job_rmJ_cons {cfg : Cfg} {s : St} {d : Disk} (h : Inv cfg s d) {j : 
     · exact Or.inr h1
   · exact h.mm.of_same rfl rfl
   · intro _
-    exact hb.of_same rfl (Nat.le_refl _) (Nat.le_refl _) (fun hr => ⟨hr, Nat.le_refl _⟩)
+    exact hb.of_same rfl (h.seqHi_step hj rfl rfl rfl rfl (fun hb' => nomatch hb')) (Nat.le_refl _)
+      (fun hr => ⟨hr, Nat.le_refl _⟩)
   · intro hr
-    exact (h.run hr).rmJ j' n (hnj hr) rfl hmfd'
+    refine (h.run hr).rmJ j' n (hnj hr) ?_ hmfd'
+    intro hfp
+    have hfp' : j'.kind = .flush → j'.pc.beforeCommit = true := hfp
+    rcases hok.kind_running hr with hk | hk
+    · exact nomatch (hfp' hk)
+    · exact hnotc hk
   · intro hr
     exact (h.recov hr).imp (fun r hrr => hrr.rmJ j' n rfl hmfd')
   · intro hcr; exact absurd hcr hph
@@ -79,12 +86,13 @@ theorem inv_job_rmJ_cons {cfg : Cfg} {s : St} {d : Disk} (h : Inv cfg s d) {j : 
       simp only [Holds]
       unfold RemovalsOK
       simp only
-      refine ⟨fun m hm => ?_, hrmt⟩
+      refine ⟨fun m hm => ?_, hrmt, fun hk => absurd hk hnotc⟩
       obtain ⟨a, b⟩ := hrmj m (List.mem_cons_of_mem _ hm)
       refine ⟨?_, b⟩
       rcases a with a | ⟨a1, a2⟩
       · exact Or.inl a
       · exact Or.inr ⟨a1, fun p hp => a2 p (mem_erase.1 hp).1⟩
+    · exact fun _ _ _ _ _ => rfl
 
 theorem inv_job_rmJ_nil {cfg : Cfg} {s : St} {d : Disk} (h : Inv cfg s d) {j : Job}
     (hj : s.job = some j) (hpc : j.pc = .rmJ []) {rot : Bool}
@@ -102,6 +110,7 @@ theorem inv_job_rmJ_nil {cfg : Cfg} {s : St} {d : Disk} (h : Inv cfg s d) {j : J
   let j' : Job := { j with pc := .rmT j.rmTables }
   have hpf := phase_frame (d' := d) h j' s.nextFile (Nat.le_refl _) rfl rfl rfl (by intro m hm; cases hm)
     ⟨j, hj, hnr⟩ (fun hb' => by cases hb')
+    (fun j0 h0 => by rw [hj] at h0; cases h0; exact ⟨rfl, fun _ _ => rfl⟩)
   obtain ⟨mf, v0, v, hparts, hlv, _⟩ := h.disk.last
   have hrm := hok.removals
   rw [hlv] at hrm
@@ -113,7 +122,8 @@ theorem inv_job_rmJ_nil {cfg : Cfg} {s : St} {d : Disk} (h : Inv cfg s d) {j : J
   · exact h.disk
   · exact h.mm.of_same rfl rfl
   · intro _
-    exact hb.of_same rfl (Nat.le_refl _) (Nat.le_refl _) (fun hr => ⟨hr, Nat.le_refl _⟩)
+    exact hb.of_same rfl (h.seqHi_step hj rfl rfl rfl rfl (fun hb' => nomatch hb')) (Nat.le_refl _)
+      (fun hr => ⟨hr, Nat.le_refl _⟩)
   · exact hpf.1
   · exact hpf.2
   · intro hcr; exact absurd hcr hph
@@ -126,6 +136,7 @@ theorem inv_job_rmJ_nil {cfg : Cfg} {s : St} {d : Disk} (h : Inv cfg s d) {j : J
     · rw [hlv]
       simp only [Holds]
       unfold RemovalsOK
-      exact hrm.2
+      exact hrm.2.1
+    · exact fun _ _ _ _ _ => rfl
 
 end GoLevel.Dur
